@@ -10,6 +10,7 @@
    The model's prediction ([set_upstream_configs]) is used only for [mismatch] and for the
    attribution of known finding 1 (cluster `options:` replaces the default block's options). *)
 From V Require Export Base CorrBase Config.
+From V Require Validators Corr_C11.
 
 (* ---- oracles from the tables carried by the case ---- *)
 Fixpoint tab_get (t : list (str * bool)) (s : str) : option bool :=
@@ -18,12 +19,21 @@ Fixpoint tab_get (t : list (str * bool)) (s : str) : option bool :=
    a string that is not listed is accepted. A forgotten entry can only show up as a mismatch. *)
 Definition tab_fun (t : list (str * bool)) (s : str) : bool :=
   match tab_get t s with Some b => b | None => true end.
-Definition oracle_of (urls res digs : list (str * bool)) : oracle :=
-  MOr (tab_fun urls) (tab_fun res) (tab_fun digs).
+(* (scheme, host) that net/url yields for a from/to value completed with the configured scheme;
+   an unlisted value has none (the harness lists every from/to value of the document) *)
+Fixpoint parts_get (t : list (str * (str * str))) (s : str) : str * str :=
+  match t with [] => ([], []) | (a, b) :: t' => if str_eqb s a then b else parts_get t' s end.
+Definition lit_http : str := [104;116;116;112].
+Record tables := MT { t_scheme : str; t_urls : list (str * bool); t_res : list (str * bool);
+                      t_digs : list (str * bool); t_parts : list (str * (str * str)) }.
+Definition oracle_of (T : tables) : oracle :=
+  MOr (tab_fun (t_urls T)) (tab_fun (t_res T)) (tab_fun (t_digs T)) (parts_get (t_parts T)) (t_scheme T).
+Definition no_tables : tables := MT lit_http [] [] [] [].
 
 
 Inductive ccase :=
-| CLoad (E : env) (urls res digs : list (str * bool)) (d : doc) (obs : option (list upstream))
+| CLoad (E : env) (T : tables) (d : doc) (obs : option (list upstream))
+| CAdmit (ids : list (str * list str)) (pols : list Validators.policy) (adm : list (list N))
 | CTmpl (tv : smap) (toks : list token) (obs : str)
 | CBad (refused : bool).      (* YAML outside the documented shape (type errors): must be refused *)
 
@@ -66,6 +76,16 @@ Definition su (l : list upstream) : option (list upstream) := Some l.
 Definition nu : option (list upstream) := None.
 Definition zs (n : N) : Z := (Z.of_N n * 1000000000)%Z.                        (* seconds -> ns *)
 Definition zn (n : N) : Z := Z.of_N n.
+Definition pn : list (str * (str * str)) := [].
+Definition pc (k sch host : str) (l : list (str * (str * str))) := (k, (sch, host)) :: l.
+Definition idn : list (str * list str) := [].
+Definition idc (e : str) (g : list str) (l : list (str * list str)) := (e, g) :: l.
+Definition poln : list Validators.policy := [].
+Definition polc (a d g : list str) (l : list Validators.policy) := Validators.Build_policy a d g :: l.
+Definition nn : list N := [].
+Definition nc (a : N) (l : list N) : list N := a :: l.
+Definition rown : list (list N) := [].
+Definition rowc (r : list N) (l : list (list N)) := r :: l.
 Definition case_nil : list case := [].
 Definition case_cons (c : case) (l : list case) : list case := c :: l.
 
@@ -88,13 +108,24 @@ Definition opt_list {A} (o : option A) : list A := match o with Some a => [a] | 
    (most specific first) and the deployment defaults *)
 Record expected := MX {
   x_service : str; x_from : str; x_to : str; x_type : str;
+  x_route : list str;           (* what net/url makes of the stated from/to (see [spec_route_parts]) *)
   x_olayers : list opts;        (* option blocks stated along the chain, most specific first *)
   x_defaults : opts;
   x_d6 : bool }.                (* both the default and the cluster block carry `options:` *)
 
-Definition expect (name : str) (chain : list routecfg) (defaults : opts) (d6 : bool) : expected :=
-  MX name
-     (fs emp_list [] (map rc_from chain)) (fs emp_list [] (map rc_to chain)) (fs emp_list [] (map rc_type chain))
+(* a valid route: for the simple type (the default) both ends are the URLs net/url reads from the
+   stated values completed with the configured scheme — in particular the HOST is the stated one;
+   for the rewrite type the target template carries the configured scheme *)
+Definition spec_route_parts (O : oracle) (from to type : str) : list str :=
+  if is_nil type || str_eqb type lit_simple then
+    [fst (url_parts O from); snd (url_parts O from); fst (url_parts O to); snd (url_parts O to)]
+  else [[]; []; cfg_scheme O; []].
+
+Definition expect (O : oracle) (name : str) (chain : list routecfg) (defaults : opts) (d6 : bool) : expected :=
+  let from := fs emp_list [] (map rc_from chain) in
+  let to := fs emp_list [] (map rc_to chain) in
+  let type := fs emp_list [] (map rc_type chain) in
+  MX name from to type (spec_route_parts O from to type)
      (flat_map (fun r => opt_list (rc_options r)) chain) defaults d6.
 
 Definition opt_str_eqb := option_eqb str_eqb.
@@ -111,7 +142,7 @@ Definition matches (tv : smap) (x : expected) (u : upstream) : bool :=
   let D := x_defaults x in
   let f {A} (emp : A -> bool) (zero : A) (p : opts -> A) := fs emp zero (map p L ++ [p D]) in
   str_eqb (u_service u) (x_service x) && str_eqb (u_from u) (x_from x) &&
-  str_eqb (u_to u) (x_to x) && str_eqb (u_type u) (x_type x) &&
+  str_eqb (u_to u) (x_to x) && str_eqb (u_type u) (x_type x) && strs_eqb (u_route u) (x_route x) &&
   strs_eqb (u_groups u) (f emp_list [] o_groups) &&
   strs_eqb (u_domains u) (f emp_list [] o_domains) &&
   strs_eqb (u_addresses u) (f emp_list [] o_addresses) &&
@@ -150,10 +181,10 @@ Definition sel_d6 (t : sel) : bool :=
 
 Definition sel_extras (t : sel) : list routecfg := fs emp_list [] [b_extra (sl_c t); b_extra (sl_d t)].
 
-Definition spec_expected (E : env) (d : doc) : list expected :=
+Definition spec_expected (O : oracle) (E : env) (d : doc) : list expected :=
   let S := spec_selected (e_cluster E) d in
-  map (fun t => expect (sl_name t) [b_route (sl_c t); b_route (sl_d t)] (e_defaults E) (sel_d6 t)) S ++
-  flat_map (fun t => map (fun e => expect (sl_name t) [e; b_route (sl_c t); b_route (sl_d t)]
+  map (fun t => expect O (sl_name t) [b_route (sl_c t); b_route (sl_d t)] (e_defaults E) (sel_d6 t)) S ++
+  flat_map (fun t => map (fun e => expect O (sl_name t) [e; b_route (sl_c t); b_route (sl_d t)]
                                           (e_defaults E) (sel_d6 t)) (sel_extras t)) S.
 
 Fixpoint forall2b {A B} (f : A -> B -> bool) (a : list A) (b : list B) : bool :=
@@ -189,7 +220,8 @@ Definition upstream_eqb (a b : upstream) : bool :=
   bool_eqb (u_tls_skip a) (u_tls_skip b) && bool_eqb (u_preserve_host a) (u_preserve_host b) &&
   bool_eqb (u_skip_signing a) (u_skip_signing b) && bool_eqb (u_skip_preflight a) (u_skip_preflight b) &&
   bool_eqb (u_pass_token a) (u_pass_token b) && str_eqb (u_provider_slug a) (u_provider_slug b) &&
-  str_eqb (u_cookie_name a) (u_cookie_name b) && bool_eqb (u_hmac a) (u_hmac b).
+  str_eqb (u_cookie_name a) (u_cookie_name b) && bool_eqb (u_hmac a) (u_hmac b) &&
+  strs_eqb (u_route a) (u_route b).
 
 Definition result_matches (m : result (list upstream)) (obs : option (list upstream)) : bool :=
   match m, obs with
@@ -219,15 +251,16 @@ Definition occurs_b (pat s : str) : bool := existsb (fun t => has_prefix t pat) 
 
 Definition model_result (c : case) : result (list upstream) :=
   match c with
-  | CLoad E urls res digs d _ => set_upstream_configs (oracle_of urls res digs) E d
+  | CLoad E T d _ => set_upstream_configs (oracle_of T) E d
+  | CAdmit _ _ _ => Ok []
   | CTmpl _ _ _ => Ok []
   | CBad _ => Err 0
   end.
 
 Definition judge (c : case) : N :=
   match c with
-  | CLoad E urls res digs d obs =>
-      let O := oracle_of urls res digs in
+  | CLoad E T d obs =>
+      let O := oracle_of T in
       let d' := subst_doc (e_tvars E) d in
       let m := set_upstream_configs O E d in
       let guards := doc_wf d' && env_wf E in
@@ -236,12 +269,23 @@ Definition judge (c : case) : N :=
       | None => code mismatch true 0          (* refusing to start is always fail-closed *)
       | Some ups =>
           let fc := forallb (fail_closed_b O) ups in
-          let X := spec_expected E d' in
+          let X := spec_expected O E d' in
           let fbf := forall2b (matches (e_tvars E)) X ups in
           let only_d6 := forall2b (fun x u => matches (e_tvars E) x u || x_d6 x) X ups in
           let known : N := if fc && negb fbf && only_d6 then 1 else 0 in
           code mismatch (fc && fbf) known
       end
+  | CAdmit ids pols adm =>
+      (* the validators proxy.New built for each upstream, asked through the real login callback:
+         model = Validators.login_admit on the upstream's resolved rule lists (C11's model of
+         proxy.New + OAuthCallback); monitor = the documented any-of rule on those lists: an
+         identity is admitted iff one of the upstream's OWN rules admits it *)
+      let row (f : Validators.policy -> str -> list str -> bool) (p : Validators.policy) :=
+        map (fun id => if f p (fst id) (snd id) then 1 else 0) ids in
+      let m := map (row (fun p e g => Validators.login_admit lower_ascii p e (Validators.GroupsOk g))) pols in
+      let sp := map (row (fun p e g => Corr_C11.spec_admit lower_ascii p e (Validators.GroupsOk g))) pols in
+      let guard := forallb (fun p => Corr_C11.dom_guard lower_ascii (Validators.p_domains p)) pols in
+      code (negb (list_eqb (list_eqb N.eqb) m adm)) (negb guard || list_eqb (list_eqb N.eqb) sp adm) 0
   | CTmpl tv toks obs =>
       let m := subst_all tv (render toks) in
       let guard := forallb tok_wf toks && tv_wf tv in
@@ -253,18 +297,19 @@ Definition judge (c : case) : N :=
 
 Definition classify (c : case) : N :=
   match c with
-  | CLoad E urls res digs d obs =>
+  | CLoad E T d obs =>
       match obs with
-      | None => match set_upstream_configs (oracle_of urls res digs) E d with Err e => 10 + e | Ok _ => 19 end
+      | None => match set_upstream_configs (oracle_of T) E d with Err e => 10 + e | Ok _ => 19 end
       | Some [] => 0
       | Some ups =>
           let d' := subst_doc (e_tvars E) d in
           let S := spec_selected (e_cluster E) d' in
-          let X := spec_expected E d' in
+          let X := spec_expected (oracle_of T) E d' in
           if negb (forall2b (matches (e_tvars E)) X ups) then 40
           else 20 + (if Nat.ltb (length S) (length ups) then 1 else 0) + (if existsb sel_d6 S then 2 else 0)
                   + (if is_nil (e_tvars E) then 0 else 4)
       end
+  | CAdmit ids pols adm => 70 + (if existsb (existsb (N.eqb 1)) adm then 1 else 0)
   | CTmpl tv toks obs => 50 + (if str_eqb obs (render toks) then 0 else 1)
   | CBad refused => 60
   end.
